@@ -5,8 +5,10 @@ import (
 	"errors"
 	"runtime"
 	"strings"
+	"time"
 
 	"github.com/lestrrat-go/jwx/v2/jwk"
+	"github.com/redis/go-redis/v9"
 
 	oidcv1 "github.com/istio-ecosystem/authservice/config/gen/go/v1/oidc"
 	"github.com/istio-ecosystem/authservice/internal/oidc"
@@ -38,11 +40,51 @@ type EnvCall struct {
 type Env struct {
 	Calls  []EnvCall
 	Faults map[int]string // call index within this check -> before | after | crash
+	// Redis command level (Redis-backed worlds): commands issued during this check and the fault plan for them
+	RedisCmds   []string
+	RedisFaults map[int]string // command index within this check -> before | after
+	RedisFailed bool
 }
 
 func (e *Env) reset(f map[int]string) {
 	e.Calls = nil
 	e.Faults = f
+	e.RedisCmds = nil
+	e.RedisFaults = nil
+	e.RedisFailed = false
+}
+
+// redisHook injects failures at the level of single Redis commands (connection reset before / after the server
+// executed the command) and records the commands of the current check.
+type redisHook struct{ w *World }
+
+func (h redisHook) DialHook(next redis.DialHook) redis.DialHook { return next }
+
+func (h redisHook) ProcessPipelineHook(next redis.ProcessPipelineHook) redis.ProcessPipelineHook {
+	return next
+}
+
+func (h redisHook) ProcessHook(next redis.ProcessHook) redis.ProcessHook {
+	return func(ctx context.Context, cmd redis.Cmder) error {
+		if h.w.redisQuiet {
+			return next(ctx, cmd)
+		}
+		env := h.w.CurEnv()
+		idx := len(env.RedisCmds)
+		env.RedisCmds = append(env.RedisCmds, cmd.Name())
+		switch env.RedisFaults[idx] {
+		case "before":
+			env.RedisFailed = true
+			cmd.SetErr(ErrInjected)
+			return ErrInjected
+		case "after":
+			_ = next(ctx, cmd)
+			env.RedisFailed = true
+			cmd.SetErr(ErrInjected)
+			return ErrInjected
+		}
+		return next(ctx, cmd)
+	}
 }
 
 // AnyFailed reports whether any environment call of this check failed.
@@ -66,6 +108,9 @@ type SpyStore struct {
 	W     *World
 	Real  oidc.SessionStore
 	Ghost map[string]*GhostSession
+	// Born is when the session entry under an id came into being (first effective write); with an absolute session
+	// time-out an entry that is older than the limit is gone in the abstract and the next write starts a new one.
+	Born map[string]time.Time
 	// Log is the log of all effective calls of the whole history (for monitors that need history).
 	Log []EnvCall
 }
@@ -114,8 +159,19 @@ func (w *World) begin(kind, method, sid string) (env *Env, idx int, fault string
 }
 
 func (s *SpyStore) ghost(sid string) *GhostSession {
+	if s.Born == nil {
+		s.Born = map[string]time.Time{}
+	}
+	now := s.W.Now()
+	if abs := s.W.AbsTimeout(); abs > 0 {
+		if b, ok := s.Born[sid]; ok && !now.Before(b.Add(abs)) {
+			delete(s.Ghost, sid)
+			delete(s.Born, sid)
+		}
+	}
 	g := s.Ghost[sid]
 	if g == nil {
+		s.Born[sid] = now
 		g = &GhostSession{}
 		s.Ghost[sid] = g
 	}
@@ -207,7 +263,7 @@ func (s *SpyStore) ClearAuthorizationState(ctx context.Context, sid string) erro
 
 func (s *SpyStore) RemoveSession(ctx context.Context, sid string) error {
 	return s.do("RemoveSession", sid, nil, nil, func() error { return s.Real.RemoveSession(ctx, sid) },
-		func() { delete(s.Ghost, sid) })
+		func() { delete(s.Ghost, sid); delete(s.Born, sid) })
 }
 
 func (s *SpyStore) RemoveAllExpired(ctx context.Context) error {
